@@ -149,7 +149,12 @@ def route_scn(d, topo, warm, knows_net, announce=False, history=False, ends=Fals
         for r in routers:
             r.nse.startup()
         w.run()
-    if announce:
+    if announce == "ask":
+        # every station that does not know its network number asks (What-Is-Network-Number); the routers answer
+        for x in stations.values():
+            x.nse.what_is_network_number()
+        w.run()
+    elif announce:
         # the routers tell every network its number (Network-Number-Is): stations bound without one learn it
         for r in routers:
             r.nse.network_number_is()
@@ -517,6 +522,9 @@ def instances(tier):
     for t in (["pair", "line3"] if q else list(TOPO)):
         out.append(Inst(route_scn, dict(topo=t, warm=False, knows_net=False, announce=True), budget=80 if q else 900,
                         path_timeout=90, label="%s,cold,learns-net" % t))
+    for t in (["line3"] if q else ["pair", "line3", "star3", "tree5"]):
+        out.append(Inst(route_scn, dict(topo=t, warm=False, knows_net=False, announce="ask"), budget=80 if q else 900,
+                        path_timeout=90, label="%s,cold,asks-net" % t))
     for t in (["line3"] if q else ["pair", "line3", "star3", "line4", "tree5"]):
         out.append(Inst(route_burst, dict(topo=t), budget=120 if q else 600, path_timeout=90, label=t))
     for c in CACHES:
